@@ -254,7 +254,13 @@ struct ExpEngine: Engine{
             double er=std::fabs((double)((q128)res.X.m[ii][jj].real()-R.m[ii][jj].re)),ei=std::fabs((double)((q128)res.X.m[ii][jj].imag()-R.m[ii][jj].im));
             double e=std::sqrt(er*er+ei*ei); if(!(e<=worst)){ worst=e; wi=ii; wj=jj; } }
           if(!(worst<=bound)){ char b[300]; snprintf(b,sizeof b,"|X-exp(A)| = %.3g at (%u,%u) exceeds 2e3*n*u*(1+|A|)*exp(mu) = %.3g (n=%u, class %d, 1-norm %.6g, band %d)",worst,wi,wj,bound,c.n,cls,n1,band);
-            fail("exp:inaccurate","band"+std::to_string(band),b); break; }
+            // does the matrix annihilate a vector of +-1 entries other than +-(1,...,1)? Such a vector is one the block 1-norm estimator may draw as its random
+            // column; the estimate of every power is then exactly 0 (known finding F-C07-3, a separate signature so that every other inaccuracy stays a violation)
+            bool signnull=false;
+            for(unsigned msk=1;msk+1<(1u<<c.n)&&!signnull;msk++){ double worstrow=0,amax=0;
+              for(unsigned ii=0;ii<c.n;ii++){ cplx acc=0; for(unsigned jj=0;jj<c.n;jj++){ acc+=Aexp.m[ii][jj]*(((msk>>jj)&1)?1.0:-1.0); amax=std::max(amax,std::abs(Aexp.m[ii][jj])); } worstrow=std::max(worstrow,std::abs(acc)); }
+              if(worstrow<=1e-13*amax) signnull=true; }
+            fail("exp:inaccurate",signnull?"annihilates-a-sign-vector":"band"+std::to_string(band),b); break; }
           double rel=worst/bound; if(rel>0.01) ctr.add("probe_error_above_1pct_of_bound");
         }else{
           // exp(-isV) A exp(isV) in quadruple precision: library computes E=exp(isV) and returns E^dagger A E
